@@ -927,7 +927,74 @@ pub fn worker(prop: &str, shard: usize, nshards: usize, seed: u64, tier: &str, o
         }
         walk.out.end();
     }
+    // --- G-tree: every move from corpus roots, to depth 2 (quick) / 3 (thorough)
+    let depth = if tier == "thorough" { 3 } else { 2 };
+    for (ri, root_fen) in corpus.iter().enumerate() {
+        if ri % nshards != shard {
+            continue;
+        }
+        let Ok(p) = fen::parse_strict(root_fen) else { continue };
+        let Ok(mut g) = eng::load(root_fen) else { continue };
+        walk.out.begin(&json!({"kind":"tree","root":root_fen,"depth":depth}));
+        let mut path = vec![];
+        tree_walk(&mut walk, &mut g, &p, depth, root_fen, &mut path, ((100 + ri as u64) << 40));
+        walk.out.add("tree_roots", 1);
+        walk.out.end();
+    }
+
+    // --- C01 through the command line: `rustybait perft 2 <fen>` divide vs the oracle
+    if mask & M01 != 0 {
+        let bin = crate::uci::engine_bin(false);
+        let n = if tier == "thorough" { 60 } else { 6 };
+        for k in 0..n {
+            let spec = gen::game_spec(&corpus, seed ^ 0xD1D, (k * nshards + shard) as u64);
+            let cut = rng.below(spec.max_plies.min(80) + 1);
+            let Some(p) = gen::shadow_at(&spec, cut) else { continue };
+            let f6 = fen::render6(&p, 0, 1);
+            walk.out.begin(&json!({"kind":"cli-perft","fen":f6}));
+            let outp = std::process::Command::new(&bin).args(["perft", "2", &f6]).env("RUST_BACKTRACE", "0").output();
+            if let Ok(o2) = outp {
+                let text = String::from_utf8_lossy(&o2.stdout).to_string();
+                let mut got: Vec<(String, u64)> = text.lines().filter_map(|l| {
+                    let (m, c) = l.split_once(": ")?;
+                    Some((m.trim().to_string(), c.trim().parse().ok()?))
+                }).collect();
+                got.sort();
+                let mut want: Vec<(String, u64)> = p.legal_moves().iter().map(|m| (m.uci(), p.make(m).perft(1))).collect();
+                want.sort();
+                walk.out.add("c01_cli_perft_divides", 1);
+                if got != want || !o2.status.success() {
+                    let case = || json!({"kind":"cli-perft","load_fen":f6});
+                    let origin = Origin { case: &case, route: "cli", src: 0 };
+                    walk.viol("C01", "cli-perft", &fen::render4(&p), format!("`rustybait perft 2 \"{f6}\"` prints {got:?} (status {:?}), the rules give {want:?}", o2.status.code()), &origin);
+                }
+            }
+            walk.out.end();
+        }
+    }
     walk.finish();
+}
+
+/// Depth-limited walk over EVERY legal move (oracle-driven), all monitors at every node.
+fn tree_walk(walk: &mut Walk, g: &mut Game, p: &Pos, depth: usize, root: &str, path: &mut Vec<String>, src: u64) {
+    {
+        let case = || json!({"kind":"tree","load_fen":root,"moves":path.join(" ")});
+        let origin = Origin { case: &case, route: "moves", src };
+        walk.check_position(g, p, &origin);
+        walk.out.add("tree_nodes", 1);
+    }
+    if depth == 0 {
+        return;
+    }
+    for m in p.legal_moves() {
+        let Some(em) = eng::find(g, &m.uci()) else { continue };
+        g.push(em);
+        path.push(m.uci());
+        let next = p.make(&m);
+        tree_walk(walk, g, &next, depth - 1, root, path, src);
+        path.pop();
+        g.pop(em);
+    }
 }
 
 /// Walk one game with all enabled monitors. `stop_at` limits the walk (used by replay).
@@ -1261,7 +1328,15 @@ pub fn replay(prop: &str, case: &Value, out: &mut Out) {
     if let Some(f) = case.get("load_fen").and_then(|f| f.as_str()) {
         println!("loading {f}");
         match (eng::load(f), fen::parse_strict(f)) {
-            (Ok(mut g), Ok(p)) => {
+            (Ok(mut g), Ok(mut p)) => {
+                if case["kind"] == "tree" {
+                    for t in case["moves"].as_str().unwrap_or("").split_ascii_whitespace() {
+                        if let (Some(em), Some(m)) = (eng::find(&mut g, t), p.find_uci(t)) {
+                            g.push(em);
+                            p = p.make(&m);
+                        }
+                    }
+                }
                 let c = || json!({"kind":"pos","load_fen":f});
                 let origin = Origin { case: &c, route: "fen", src: 0 };
                 walk.check_position(&mut g, &p, &origin);
